@@ -175,7 +175,7 @@ func must(err error) {
 
 // ---------- build ----------
 
-var simPkgs = []string{"internal/transfer:fs", "internal/peers", "internal/session", "internal/scheduler", "internal/app", "internal/wsclient", "internal/ice", "cmd/thruserv"}
+var simPkgs = []string{"internal/transfer:fs", "internal/peers", "internal/session", "internal/scheduler", "internal/app", "internal/wsclient", "internal/ice:postcall", "cmd/thruserv"}
 
 func lockBuild() func() {
 	must(os.MkdirAll(buildDir, 0o755))
